@@ -45,7 +45,7 @@ def build(rnd, tier, flags):
     gi = r.n(0, len(GARBAGE) - 1)
     garb = [GARBAGE[(gi + k) % len(GARBAGE)] for k in range(ngar)]
     case = {"lines": lay.lines, "stmts": stmts, "garbage": garb, "cont": r.n(0, 2), "std": std,
-            "ignore_comments": r.chance(50), "meta": meta}
+            "ignore_comments": r.chance(50), "process_directives": r.chance(30), "meta": meta}
     return case, progs.excluded_counts(g, lay)
 
 
@@ -67,8 +67,9 @@ def _garbage_lines(g, k):
 def evaluate(case):
     lines = case["lines"]
     std, ign = case["std"], case["ignore_comments"]
-    labels = ["std=" + std, "cont=%d" % case["cont"]]
-    o = guarded_parse("\n".join(lines) + "\n", std=std, ignore_comments=ign)
+    kw = {"process_directives": True} if case.get("process_directives") else {}
+    labels = ["std=" + std, "cont=%d" % case["cont"]] + (["process_directives"] if kw else [])
+    o = guarded_parse("\n".join(lines) + "\n", std=std, ignore_comments=ign, **kw)
     if o.kind != "tree":
         return Result(True, None, False, labels, precondition_failed=True)
     nontrivial = any(s[2] >= 2 or s[4] for s in case["stmts"]) or case["cont"] > 0
@@ -79,7 +80,7 @@ def evaluate(case):
             new = lines[:first - 1] + glines + lines[last:]
             expect_n = first + len(glines) - 1
             expect_l = glines[-1].rstrip()
-            o2 = guarded_parse("\n".join(new) + "\n", std=std, ignore_comments=ign)
+            o2 = guarded_parse("\n".join(new) + "\n", std=std, ignore_comments=ign, **kw)
             if o2.kind == "tree":
                 return Result(False, "accepted:%s" % kind, nontrivial, labels,
                               {"replaced": lines[first - 1:last], "garbage": glines, "line": first})
